@@ -84,71 +84,101 @@ structure ListSt where
   tight : Bool
   prevEmptyEnd : Bool
 
-/-- one pass of the `while nextLine < endLine` loop of `list_block`; `none` result = the loop ended (`break`/condition) -/
+/-- the nested run of an item, or the workaround for an empty item followed by an empty line -/
+def listNested (inner : List BRule) (maxNesting : Int) (endLine : Nat) (s2 : BState) (startLine : Nat) (contentEmpty : Bool) :
+    Except PyErr BState :=
+  match (if contentEmpty then s2.isEmpty ((startLine : Int) + 1) else .ok false) with
+  | .error e => .error e
+  | .ok true => .ok { s2 with line := min (s2.line + 2) endLine }
+  | .ok false => blockTokenize inner maxNesting s2 startLine endLine
+
+/-- after the nested run: `prevEmptyEnd`, restore of the item's first line / `blkIndent` / `listIndent` / `tight`, the
+    closing token, the map patch; `l` is the item's first line as it was, `s1` the state just after `list_item_open` -/
+def listClose (markerChar : Char) (s1 : BState) (l : BLine) (ntokItem startLine : Nat) (s3 : BState) : Except PyErr (BState × Bool × Bool) :=
+  match (if s3.line - startLine > 1 then s3.isEmpty ((s3.line : Int) - 1) else .ok false) with
+  | .error e => .error e
+  | .ok prevEmptyEnd =>
+    match getL s3 startLine with
+    | .error e => .error e
+    | .ok lcur =>
+      let s4 := { (s3.setLine startLine (lcur.retab l.tShift l.sCount)) with blkIndent := s3.listIndent, listIndent := s1.listIndent, tight := s1.tight }
+      let s5 := s4.pushFull "list_item_close" "li" (-1) none none "" (String.singleton markerChar) ""
+      let s6 := { s5 with tokens := s5.tokens.modify ntokItem (fun t => t.setMap (some (startLine, s5.line))) }
+      .ok (s6, s3.tight, prevEmptyEnd)
+
+/-- the state the nested run of an item starts from: first line rewritten, `blkIndent` at the item's content column -/
+def listEnter (s1 : BState) (l : BLine) (startLine markerLen : Nat) (q : Int × Nat) (indent : Int) : BState :=
+  { (s1.setLine startLine (l.retab (l.tShift + markerLen + q.2) q.1)) with listIndent := s1.blkIndent, blkIndent := indent, tight := true }
+
+/-- `indent` of an item: column of the marker + marker + 1..4 blanks -/
+def listIndentOf (l : BLine) (markerLen : Nat) (q : Int × Nat) : Int :=
+  let initial : Int := l.sCount + (markerLen : Int)
+  let contentEmpty := decide ((l.body.drop markerLen).length ≤ q.2)
+  let iam0 : Int := if contentEmpty then 1 else q.1 - initial
+  initial + (if iam0 > 4 then 1 else iam0)
+
+/-- one list item, from `list_item_open` to `list_item_close` (map patched): the state after it, `state.tight` as the nested
+    run left it, and the new `prevEmptyEnd` -/
+def listItem (ordered : Bool) (markerChar : Char) (inner : List BRule) (maxNesting : Int) (endLine : Nat)
+    (s : BState) (startLine markerLen : Nat) : Except PyErr (BState × Bool × Bool) :=
+  match getL s startLine with
+  | .error e => .error e
+  | .ok l =>
+    let q := lLoop l.bs (l.sCount + (markerLen : Int)) (l.body.drop markerLen) 0
+    let contentEmpty := decide ((l.body.drop markerLen).length ≤ q.2)         -- contentStart >= maximum
+    let digits := l.body.take (markerLen - 1)
+    let s1 := s.pushFull "list_item_open" "li" 1 (some (startLine, 0)) none "" (String.singleton markerChar) (if ordered then String.ofList digits else "")
+    let s2 := listEnter s1 l startLine markerLen q (listIndentOf l markerLen q)
+    match listNested inner maxNesting endLine s2 startLine contentEmpty with
+    | .error e => .error e
+    | .ok s3 => listClose markerChar s1 l s.tokens.length startLine s3
+
+/-- the `while nextLine < endLine` loop of `list_block` -/
 def listItems (codeOn ordered : Bool) (markerChar : Char) (terms inner : List BRule) (maxNesting : Int) (endLine : Nat) :
     Nat → ListSt → Except PyErr ListSt
   | 0, _ => .error (.noProgress "list")
   | fuel + 1, st =>
-    let s := st.s
-    let startLine := st.startLine
-    if ¬ (startLine < endLine) then .ok st else
-    match getL s startLine with
+    if ¬ (st.startLine < endLine) then .ok st else
+    match listItem ordered markerChar inner maxNesting endLine st.s st.startLine st.markerLen with
     | .error e => .error e
-    | .ok l =>
-      -- offset after the marker
-      let initial : Int := l.sCount + (st.markerLen : Int)
-      let afterMarker := l.body.drop st.markerLen
-      let q := lLoop l.bs initial afterMarker 0
-      let contentEmpty := decide (afterMarker.length ≤ q.2)         -- contentStart >= maximum
-      let iam0 : Int := if contentEmpty then 1 else q.1 - initial
-      let iam : Int := if iam0 > 4 then 1 else iam0
-      let indent : Int := initial + iam
-      -- list_item_open
-      let digits := l.body.take (st.markerLen - 1)
-      let ntokItem := s.tokens.length
-      let s1 := s.pushFull "list_item_open" "li" 1 (some (startLine, 0)) none "" (String.singleton markerChar)
-                  (if ordered then String.ofList digits else "")
-      let oldTight := s1.tight
-      let oldListIndent := s1.listIndent
-      let l' : BLine := l.retab (l.tShift + st.markerLen + q.2) q.1
-      let s2 := { (s1.setLine startLine l') with listIndent := s1.blkIndent, blkIndent := indent, tight := true }
-      -- the nested run (or the empty-item workaround)
-      let nested : Except PyErr BState :=
-        match (if contentEmpty then s2.isEmpty ((startLine : Int) + 1) else .ok false) with
-        | .error e => .error e
-        | .ok true => .ok { s2 with line := min (s2.line + 2) endLine }
-        | .ok false => blockTokenize inner maxNesting s2 startLine endLine
-      match nested with
+    | .ok (s6, nestedTight, prevEmptyEnd) =>
+      let tight' := if (!nestedTight) || st.prevEmptyEnd then false else st.tight
+      let next := s6.line
+      let st' : ListSt := { s := s6, startLine := next, markerLen := st.markerLen, tight := tight', prevEmptyEnd := prevEmptyEnd }
+      if next ≥ endLine then .ok st' else
+      match getL s6 next with
       | .error e => .error e
-      | .ok s3 =>
-        let tight' := if (!s3.tight) || st.prevEmptyEnd then false else st.tight
-        match (if s3.line - startLine > 1 then s3.isEmpty ((s3.line : Int) - 1) else .ok false) with
+      | .ok ln =>
+        if ln.sCount < s6.blkIndent then .ok st' else
+        if isCodeLine codeOn s6 ln then .ok st' else
+        match runTerminators terms s6 next endLine with
         | .error e => .error e
-        | .ok prevEmptyEnd =>
-          match getL s3 startLine with
-          | .error e => .error e
-          | .ok lcur =>
-            let s4 := { (s3.setLine startLine (lcur.retab l.tShift l.sCount)) with blkIndent := s3.listIndent, listIndent := oldListIndent, tight := oldTight }
-            let s5 := s4.pushFull "list_item_close" "li" (-1) none none "" (String.singleton markerChar) ""
-            let next := s5.line
-            let s6 := { s5 with tokens := s5.tokens.modify ntokItem (fun t => t.setMap (some (startLine, next))) }
-            let st' : ListSt := { s := s6, startLine := next, markerLen := st.markerLen, tight := tight', prevEmptyEnd := prevEmptyEnd }
-            if next ≥ endLine then .ok st' else
-            match getL s6 next with
-            | .error e => .error e
-            | .ok ln =>
-              if ln.sCount < s6.blkIndent then .ok st' else
-              if isCodeLine codeOn s6 ln then .ok st' else
-              match runTerminators terms s6 next endLine with
-              | .error e => .error e
-              | .ok (true, s7) => .ok { st' with s := s7 }
-              | .ok (false, s7) =>
-                match (if ordered then skipOrdered ln else skipBullet ln) with
-                | none => .ok { st' with s := s7 }
-                | some mlen =>
-                  if some markerChar != ln.body[mlen - 1]? then .ok { st' with s := s7 }
-                  else listItems codeOn ordered markerChar terms inner maxNesting endLine fuel
-                         { st' with s := s7, markerLen := mlen }
+        | .ok (true, s7) => .ok { st' with s := s7 }
+        | .ok (false, s7) =>
+          match (if ordered then skipOrdered ln else skipBullet ln) with
+          | none => .ok { st' with s := s7 }
+          | some mlen =>
+            if some markerChar != ln.body[mlen - 1]? then .ok { st' with s := s7 }
+            else listItems codeOn ordered markerChar terms inner maxNesting endLine fuel { st' with s := s7, markerLen := mlen }
+
+/-- the list proper, once the first marker is known: opening token, item loop, closing token, map patch, tight paragraphs -/
+def listRun (codeOn ordered : Bool) (markerChar : Char) (mlen markerValue : Nat) (terms inner : List BRule) (maxNesting : Int)
+    (s : BState) (startLine endLine : Nat) : Except PyErr (Bool × BState) :=
+  let ntokList := s.tokens.length
+  let s0 := s.pushFull (if ordered then "ordered_list_open" else "bullet_list_open") (if ordered then "ol" else "ul") 1
+              (some (startLine, 0)) none "" (String.singleton markerChar) ""
+  let s1 := if ordered && markerValue != 1
+            then { s0 with tokens := s0.tokens.modify ntokList (fun t => t.setAttrs [("start", .i markerValue)]) } else s0
+  let s2 := { s1 with parentType := "list" }
+  match listItems codeOn ordered markerChar terms inner maxNesting endLine (endLine - startLine + 1)
+          { s := s2, startLine := startLine, markerLen := mlen, tight := true, prevEmptyEnd := false } with
+  | .error e => .error e
+  | .ok st =>
+    let s4 := st.s.pushFull (if ordered then "ordered_list_close" else "bullet_list_close") (if ordered then "ol" else "ul") (-1)
+                none none "" (String.singleton markerChar) ""
+    let toks := s4.tokens.modify ntokList (fun t => t.setMap (some (startLine, st.startLine)))
+    let s5 := { s4 with line := st.startLine, parentType := s.parentType, tokens := toks }
+    .ok (true, if st.tight then { s5 with tokens := markTight s5.level ntokList s5.tokens } else s5)
 
 /-- did the item loop stop because the next line continues the list?  (`listItems` returns either way; the caller only
     needs the final state) -/
@@ -176,25 +206,7 @@ def ruleList (codeOn : Bool) (terms inner : List BRule) (maxNesting : Int) : BRu
       | none => .error .indexError
       | some markerChar =>
         if silent then .ok (true, s) else
-        let ntokList := s.tokens.length
-        let s1 := s.pushFull (if ordered then "ordered_list_open" else "bullet_list_open") (if ordered then "ol" else "ul") 1
-                    (some (startLine, 0)) none "" (String.singleton markerChar) ""
-        let s1 := if ordered && markerValue != 1
-                  then { s1 with tokens := s1.tokens.modify ntokList (fun t => t.setAttrs [("start", .i markerValue)]) } else s1
-        let oldParentType := s1.parentType
-        let s2 := { s1 with parentType := "list" }
-        match listItems codeOn ordered markerChar terms inner maxNesting endLine (endLine - startLine + 1)
-                { s := s2, startLine := startLine, markerLen := mlen, tight := true, prevEmptyEnd := false } with
-        | .error e => .error e
-        | .ok st =>
-          let s3 := st.s
-          let s4 := s3.pushFull (if ordered then "ordered_list_close" else "bullet_list_close") (if ordered then "ol" else "ul") (-1)
-                      none none "" (String.singleton markerChar) ""
-          let nextLine := st.startLine
-          let toks := s4.tokens.modify ntokList (fun t => t.setMap (some (startLine, nextLine)))
-          let s5 := { s4 with line := nextLine, parentType := oldParentType, tokens := toks }
-          let s6 := if st.tight then { s5 with tokens := markTight s5.level ntokList s5.tokens } else s5
-          .ok (true, s6)
+        listRun codeOn ordered markerChar mlen markerValue terms inner maxNesting s startLine endLine
 
 /-! ### chains -/
 
